@@ -39,7 +39,7 @@ theorem C27_gen_facts :
     (BadNoSubscription, EOF, …) and the loop signals pause *to itself* on the full
     channel: it blocks for good, nobody else reads pausech. -/
 theorem C27_finding_self_pause_full :
-    ∃ dead, run (init 1 1 1 0 0)
+    ∃ dead, run (init 1 1 1 0 0 0)
         [.selTakePause, .subSendResume, .subRegister, .pausedTakeResume, .selDefault, .pubStart,
          .fgLock, .fgSendPause, .fgStaleLock, .fgSendPause, .respErr] = some dead ∧
       dead.loop = .selfPause ∧ dead.pause = pauseCap ∧ canStep dead = false ∧ atRest dead = false := by
@@ -51,7 +51,7 @@ theorem C27_finding_self_pause_full :
     arrives the loop blocks on `subMux.Lock()`: the API call and the loop wait for each
     other. -/
 theorem C27_finding_forget_holds_mux :
-    ∃ dead, run (init 1 1 2 0 0)
+    ∃ dead, run (init 1 1 2 0 0 0)
         [.selTakePause, .subSendResume, .subRegister, .pausedTakeResume, .selDefault, .pubStart,
          .fgLock, .fgSendPause, .fgStaleLock, .fgSendPause, .fgStaleLock, .respOk] = some dead ∧
       dead.loop = .wantLock ∧ dead.mux = .forgetSending ∧ canStep dead = false ∧ atRest dead = false := by
@@ -61,7 +61,7 @@ theorem C27_finding_forget_holds_mux :
 /-- the same wedge also stops the reconnect: Client.monitor blocks in its own
     `pauseSubscriptions` and never reaches the reconnect actions -/
 theorem C27_finding_reconnect_blocked :
-    ∃ dead, run (init 1 1 1 1 0)
+    ∃ dead, run (init 1 1 1 0 1 0)
         [.selTakePause, .subSendResume, .subRegister, .pausedTakeResume, .selDefault, .pubStart,
          .fgLock, .fgSendPause, .fgStaleLock, .fgSendPause, .respErr] = some dead ∧
       dead.monPause = 1 ∧ canStep dead = false ∧ atRest dead = false := by
@@ -70,7 +70,7 @@ theorem C27_finding_reconnect_blocked :
 
 /-- hence the unguarded statement is false -/
 theorem C27_no_deadlock_fails :
-    ¬ ∀ s, Reachable (init 1 1 1 0 0) s → canStep s = true ∨ atRest s = true := by
+    ¬ ∀ s, Reachable (init 1 1 1 0 0 0) s → canStep s = true ∨ atRest s = true := by
   intro h
   obtain ⟨dead, hrun, _, _, hc, ha⟩ := C27_finding_self_pause_full
   have := h dead (run_reachable _ _ _ Reachable.refl hrun)
@@ -83,26 +83,56 @@ theorem C27_no_deadlock_fails :
     calls, any registry size, every interleaving and every sequence of publish outcomes —
     then in every reachable state some thread or the environment can move, or everything
     is at rest. -/
-theorem C27_no_deadlock_partial (subscribes forgets stale reconnects nsubs : Nat)
-    (hg : forgets + stale + reconnects ≤ 1) (s : St)
-    (hr : Reachable (init subscribes forgets stale reconnects nsubs) s) :
+theorem C27_no_deadlock_partial (subscribes forgets stale staleD reconnects nsubs : Nat)
+    (hg : forgets + stale + staleD + reconnects ≤ 1) (s : St)
+    (hr : Reachable (init subscribes forgets stale staleD reconnects nsubs) s) :
     canStep s = true ∨ atRest s = true :=
-  progress (inv_reachable (inv_init subscribes forgets stale reconnects nsubs hg) hr)
+  progress (inv_reachable (inv_init subscribes forgets stale staleD reconnects nsubs hg) hr)
 
 /-- under the same guard no send on pausech ever finds the channel full: the queue
     never holds more than `pauseCap` tokens and a sender always has room -/
-theorem C27_pause_never_full (subscribes forgets stale reconnects nsubs : Nat)
-    (hg : forgets + stale + reconnects ≤ 1) (s : St)
-    (hr : Reachable (init subscribes forgets stale reconnects nsubs) s) :
+theorem C27_pause_never_full (subscribes forgets stale staleD reconnects nsubs : Nat)
+    (hg : forgets + stale + staleD + reconnects ≤ 1) (s : St)
+    (hr : Reachable (init subscribes forgets stale staleD reconnects nsubs) s) :
     s.pause ≤ pauseCap ∧ (s.loop = .selfPause → s.pause < pauseCap) ∧
     (0 < pausers s → s.pause < pauseCap) := by
-  have hi := inv_reachable (inv_init subscribes forgets stale reconnects nsubs hg) hr
+  have hi := inv_reachable (inv_init subscribes forgets stale staleD reconnects nsubs hg) hr
   obtain ⟨h1, h2⟩ := hi
   have hc := caps.1
   refine ⟨?_, ?_, ?_⟩
   · cases hl : s.loop <;> simp [hl, bound] at h2 <;> omega
   · intro hl; simp [hl, bound] at h2; omega
   · intro hp; cases hl : s.loop <;> simp [hl, bound] at h2 <;> omega
+
+/-- the loop never holds subMux while it hands a notification to the application
+    (`notifySubscription` runs after `Unlock`): an API call made by the consumer of the
+    notification channel is not blocked by the delivery it is about to receive -/
+theorem C27_notify_without_lock (s s' : St) (h : step s .handleD = some s') :
+    s'.loop = .notifying ∧ s'.mux = .free := by
+  simp only [step] at h
+  split at h
+  · rename_i hg
+    simp only [Option.some.injEq] at h
+    subst h
+    exact ⟨rfl, hg.2⟩
+  · simp at h
+
+/-- a ForgetSubscription / Cancel called with a context that has a deadline never wedges the
+    client: while it holds subMux waiting for room in pausech, giving up at the deadline
+    is always possible, after which the lock is free again.  (Compare
+    `C27_finding_forget_holds_mux`: with a context that never ends the same state is dead.) -/
+theorem C27_deadline_forget_gives_up (s : St) (h : s.mux = .forgetSendingD) :
+    canStep s = true ∧ ∃ s', step s .fgGiveUp = some s' ∧ s'.mux = .free ∧ s'.pause = s.pause := by
+  refine ⟨canStep_of .fgGiveUp (by simp [step, h]), ?_⟩
+  simp [step, h]
+
+/-- the wedge of `C27_finding_forget_holds_mux` with a deadline on the third forget: after
+    the deadline the loop handles the response and everything comes to rest -/
+example :
+    (run (init 1 1 1 1 0 0)
+      [.selTakePause, .subSendResume, .subRegister, .pausedTakeResume, .selDefault, .pubStart,
+       .fgLock, .fgSendPause, .fgStaleLock, .fgSendPause, .fgStaleDLock, .respOk, .fgGiveUp, .handle,
+       .selTakePause, .pausedTakePause]).map (fun s => (atRest s, s.loop)) = some (true, .paused) := by decide
 
 /-! ### lost wake-up: the loop paused although subscriptions are registered -/
 
@@ -113,7 +143,7 @@ theorem C27_pause_never_full (subscribes forgets stale reconnects nsubs : Nat)
     ("ignore since not paused") and the stale pause second — it stays paused with a
     registered subscription and never publishes again. -/
 theorem C27_finding_pause_overtakes_resume :
-    ∃ s, run (init 2 1 0 0 0)
+    ∃ s, run (init 2 1 0 0 0 0)
         [.selTakePause, .subSendResume, .subRegister, .pausedTakeResume, .selDefault, .pubStart,
          .fgLock, .fgSendPause, .subSendResume, .subRegister, .respOk, .handle,
          .selTakeResume, .selTakePause] = some s ∧ stalled s = true ∧ s.nsubs = 1 := by
@@ -123,7 +153,7 @@ theorem C27_finding_pause_overtakes_resume :
 /-- the same race exists right after `Connect`: the token NewClient queued and the
     resume of the very first Subscribe can be read in the wrong order -/
 theorem C27_finding_initial_pause_race :
-    ∃ s, run (init 1 0 0 0 0) [.subSendResume, .subRegister, .selTakeResume, .selTakePause] = some s ∧
+    ∃ s, run (init 1 0 0 0 0 0) [.subSendResume, .subRegister, .selTakeResume, .selTakePause] = some s ∧
       stalled s = true := by
   refine ⟨_, rfl, ?_⟩
   decide
@@ -141,7 +171,7 @@ example : ¬ (1 + 1 + 0 ≤ 1) := by decide
 
 /-- non-vacuity: a full healthy cycle (subscribe, publish, response, cancel) ends at rest -/
 example :
-    (run (init 1 1 0 0 0)
+    (run (init 1 1 0 0 0 0)
       [.selTakePause, .subSendResume, .subRegister, .pausedTakeResume, .selDefault, .pubStart, .respOk, .handle,
        .selDefault, .pubStart, .fgLock, .fgSendPause, .respErr, .selfPause, .selTakePause, .pausedTakePause]).map
       (fun s => (atRest s, s.pause, s.loop)) = some (true, 0, .paused) := by decide
